@@ -14,21 +14,56 @@ vars == << section, offset, yielded >>
 
 Open(sec) == section' = sec /\ offset' = 0 /\ yielded' = << >>
 
-(* what `next()` returns in the current state, and the offset afterwards *)
-NextItem ==
+(* what `next()` returns when the cursor stands at `off`, and the offset afterwards *)
+ItemAt(off) ==
     LET n == Len(section)
-        rem == n - offset
-    IN  IF offset >= n THEN [item |-> NoItem, off |-> offset]
+        rem == n - off
+    IN  IF off >= n THEN [item |-> NoItem, off |-> off]
         ELSE IF rem < 3 THEN [item |-> LeftoverItem(n), off |-> n]
-        ELSE LET t == section[offset + 1]
-                 len == BE16(section[offset + 2], section[offset + 3])
+        ELSE LET t == section[off + 1]
+                 len == BE16(section[off + 2], section[off + 3])
              IN  IF rem < 3 + len THEN [item |-> OverrunItem(t, len), off |-> n]
-                 ELSE [item |-> OkItem(t, SubSeq(section, offset + 4, offset + 3 + len)), off |-> offset + 3 + len]
+                 ELSE [item |-> OkItem(t, SubSeq(section, off + 4, off + 3 + len)), off |-> off + 3 + len]
+
+NextItem == ItemAt(offset)
 
 Next ==
     LET r == NextItem
     IN  /\ offset' = r.off
         /\ yielded' = Append(yielded, r.item)
+        /\ UNCHANGED section
+
+(***************************************************************************)
+(* The other operations of `Iterator` on the SAME cursor, as the standard  *)
+(* library defines them in terms of `next()`: `nth(n)` discards n items    *)
+(* (error items count) and returns the one after them, giving up at the    *)
+(* first None; consuming adaptors (`count`, `last`, `fold`, `collect`,     *)
+(* `for_each` through `by_ref()`) see every remaining item and leave the   *)
+(* cursor exhausted.                                                       *)
+(***************************************************************************)
+RECURSIVE NthFrom(_, _)
+NthFrom(off, n) ==
+    LET r == ItemAt(off)
+    IN  IF n = 0 \/ r.item = NoItem THEN r ELSE NthFrom(r.off, n - 1)
+
+(* n < 0 stands for an argument beyond any section (usize::MAX) *)
+NthArg(n) == IF n < 0 THEN Len(section) + 2 ELSE n
+
+Nth(n) ==
+    LET r == NthFrom(offset, NthArg(n))
+    IN  /\ offset' = r.off
+        /\ yielded' = Append(yielded, r.item)
+        /\ UNCHANGED section
+
+RECURSIVE RestFrom(_)
+RestFrom(off) ==
+    LET r == ItemAt(off)
+    IN  IF r.item = NoItem THEN << >> ELSE << r.item >> \o RestFrom(r.off)
+
+Drain ==
+    LET rest == RestFrom(offset)
+    IN  /\ offset' = IF rest = << >> THEN offset ELSE Len(section)
+        /\ yielded' = yielded \o rest \o << NoItem >>
         /\ UNCHANGED section
 
 (* ---- invariants of the cursor (checked by MC_Tlv) ---- *)
@@ -43,5 +78,7 @@ StopsForGood  == \A i \in 1..Len(yielded) : yielded[i].k \in {"none", "err"} => 
 Tiling        == (\A i \in 1..Len(yielded) : yielded[i].k # "err") => SumLens(yielded) = offset
 Bounded       == Len(Walk(section)) <= Len(section) \div 3 + 1
 Exhausts      == (yielded # << >> /\ yielded[Len(yielded)].k = "none") => Real(yielded) = Walk(section)
+(* wherever next / nth / a consuming adaptor left the cursor, what remains is a suffix of the walk *)
+OnTheWalk     == LET w == Walk(section) r == RestFrom(offset) IN Len(r) <= Len(w) /\ r = SubSeq(w, Len(w) - Len(r) + 1, Len(w))
 
 =============================================================================
